@@ -109,13 +109,36 @@ let () =
       let line = input_line stdin in
       let i = String.index line ';' in
       let large = line.[0] = 'L' in
-      let n0 = if large then int_of_string (String.sub line 1 (i - 1)) else int_of_string (String.sub line 0 i) in
+      let prov = line.[0] = 'p' in
+      let hd = String.sub line 0 i in
+      let pf = if prov then String.split_on_char ',' hd else [] in
+      let n0 = if large then int_of_string (String.sub line 1 (i - 1))
+        else if prov then int_of_string (List.nth pf 1) else int_of_string hd in
+      (* provenance mode: p<dk><sk>,<n0>,<salt>,<a>.<b>,... : start from the graph with these edges *)
+      let pedges = if prov && n0 > 0 then
+          List.filter_map (fun e -> match String.split_on_char '.' e with
+              | [a; b] -> let a = int_of_string a mod n0 and b = int_of_string b mod n0 in
+                if a = b then None else Some (a, b)
+              | _ -> None) (List.filteri (fun k _ -> k >= 3) pf)
+        else [] in
       let toks = split_on ' ' (String.sub line (i + 1) (String.length line - i - 1)) in
       let buf = Buffer.create 1024 in
       (try
          let n0n = nat_of_int n0 in
-         let store = ref [ { d = d_empty n0n; s = s_empty n0n; a = a_empty n0n } ] in
+         let start = List.fold_left (fun e (a, b) ->
+             let o = OAddE (nat_of_int a, nat_of_int b) in
+             let (d', _) = some (d_step e.d o) in
+             let (s', _) = some (s_step e.s o) in
+             let (a', _) = a_step e.a o in
+             { d = d'; s = s'; a = tabulate a' })
+             { d = d_empty n0n; s = s_empty n0n; a = a_empty n0n } pedges in
+         let store = ref [ start ] in
          let bad = ref false in
+         if prov then begin
+           let ds = dump_d start.d and ss = dump_s start.s and aa = dump_a start.a in
+           Buffer.add_string buf ("I:D:" ^ ds ^ "|S:" ^ ss);
+           if aa <> ds || aa <> ss then Buffer.add_string buf ("|MODELS-DIFFER-FROM-ABSTRACT:" ^ aa)
+         end;
          List.iteri (fun k t ->
              let (kind, graw, args) = parse_tok t in
              let size = List.length !store in
@@ -154,7 +177,7 @@ let () =
                      (store := List.mapi (fun j x -> if j = p then ne else x) !store;
                       touched := [gi; p])
                  | _ -> failwith "models disagree on whether a graph is returned"));
-             if k > 0 then Buffer.add_char buf ' ';
+             if k > 0 || prov then Buffer.add_char buf ' ';
              let rows n = sample kind n args in
              let nbs n = if kind = 'e' || kind = 'x' then sample kind n args else all_vertices n in
              let pre j x = if large then Printf.sprintf "%d=%s" j x else x in
@@ -176,7 +199,7 @@ let () =
          if !bad then Buffer.add_string buf " INVALID-OP";
          let strict = String.concat ";" (List.map (fun e ->
              Printf.sprintf "%d:%s" (int_of_nat e.d.dlen) (ints (List.map int_of_z e.d.darr))) !store) in
-         print_endline (Buffer.contents buf ^ " ## " ^ strict)
+         print_endline (if prov then Buffer.contents buf else Buffer.contents buf ^ " ## " ^ strict)
        with Panic -> print_endline "panic")
     done
   with End_of_file -> ()
